@@ -1028,7 +1028,7 @@ func sortsOwnParam(fn *ssa.Function) bool {
 	}
 	var sortIn ssa.Instruction
 	eachInstr(fn, func(_ *ssa.BasicBlock, in ssa.Instruction) {
-		if cc, ok := callIs(in, "sort", "", "Float64s"); ok && cc.Args[0] == fn.Params[0] {
+		if cc, ok := ascendingSortCall(in); ok && cc.Args[0] == fn.Params[0] {
 			sortIn = in
 		}
 	})
